@@ -253,28 +253,35 @@ _L = re.compile(r"/\\ l = (\d+)")
 
 
 def validate(ctx, module, cfg, trace, workers=6, heap_gb=3, timeout=1800, what="", env=None,
-             chunk=20000, header=0):
+             chunk=20000, header=0, chunk_bytes=12000000):
     """V: TLC evaluates Judge on every trace line.  Returns {line_no: (ok, class, why)}.
     Big traces are validated in chunks (a 20 MB trace is >1 GB of TLC values); the first `header`
     lines (shared context such as a domain) are repeated at the top of every chunk."""
     n = count_lines(trace)
-    if n <= chunk + header:
+    size = os.path.getsize(trace)
+    if n <= chunk + header and size <= chunk_bytes:
         return _validate1(ctx, module, cfg, trace, workers, heap_gb, timeout, what, env)
     verdicts = {}
     with open(trace) as f:
         lines = f.readlines()
     head = lines[:header]
     body = lines[header:]
-    for start in range(0, len(body), chunk):
+    start = 0
+    while start < len(body):
+        end, nbytes = start, 0
+        while end < len(body) and end - start < chunk and (nbytes + len(body[end]) <= chunk_bytes or end == start):
+            nbytes += len(body[end])
+            end += 1
         part = ctx.fresh("chunk") + ".ndjson"
         with open(part, "w") as f:
             f.writelines(head)
-            f.writelines(body[start:start + chunk])
+            f.writelines(body[start:end])
         v = _validate1(ctx, module, cfg, part, workers, heap_gb, timeout,
-                       what + " [lines %d..]" % (header + start + 1), env)
+                       what + " [lines %d..%d]" % (header + start + 1, header + end), env)
         os.remove(part)
         for j, verdict in v.items():
             verdicts[j if j <= header else start + j] = verdict
+        start = end
     if len(verdicts) != n:
         raise Broken("chunked validation judged %d of %d lines" % (len(verdicts), n))
     return verdicts
